@@ -399,10 +399,10 @@ pub fn honest(rng: &mut StdRng, depth: usize, dummy: bool) -> Wit {
     for l in depth..MAXD { if rng.gen_bool(0.7) { pos[l] = 0; } }
     if dummy {
         Wit { nhash: rd(rng), nsec: sec, ntc: tc, aid: to, asec: sec, lto: to, ltc: tc, asset, input, out1: 0, out2: 0, fee,
-              root: rd(rng), depth: depth as u64, sibs, pos, flag: None, exit1: rd(rng), exit2: rd(rng), bhash: [0; 4], hdr, troot: rd(rng) }
+              root: rd(rng), depth: depth as u64, sibs, pos, flag: Some(0), exit1: rd(rng), exit2: rd(rng), bhash: [0; 4], hdr, troot: rd(rng) }
     } else {
         Wit { nhash: nullifier(&sec, &tc), nsec: sec, ntc: tc, aid: to, asec: sec, lto: to, ltc: tc, asset, input, out1: o1, out2: o2, fee,
-              root, depth: depth as u64, sibs, pos, flag: None, exit1: rd(rng), exit2: rd(rng), bhash: block_hash(&hdr, &root), hdr, troot: root }
+              root, depth: depth as u64, sibs, pos, flag: Some(if o1 == 0 && o2 == 0 && block_hash(&hdr, &root) == [0; 4] { 0 } else { 1 }), exit1: rd(rng), exit2: rd(rng), bhash: block_hash(&hdr, &root), hdr, troot: root }
     }
 }
 
@@ -416,7 +416,7 @@ fn mutate(rng: &mut StdRng, w: &mut Wit) -> String {
         // near misses: every constraint but ONE holds
         "split-secret+nullifier-follows", "split-count-lo+nullifier-follows", "split-count-hi+nullifier-follows", "troot-unrelated+bhash-follows",
         "root-unrelated+troot+bhash-follow", "foreign-to+aid+nullifier-keeps", "solve-out1", "solve-out2", "solve-in", "solve-fee",
-        "depth17+root-follows", "pos4-inactive-only", "pos5-active+root-follows",
+        "depth17+root-follows", "pos4-inactive-only", "pos5-active+root-follows", "flag0+sibling-changed", "flag0+leaf-foreign-path",
     ];
     let m = muts[rng.gen_range(0..muts.len())];
     let d = w.depth as usize;
@@ -436,8 +436,8 @@ fn mutate(rng: &mut StdRng, w: &mut Wit) -> String {
         "header-parent" => w.hdr.parent[2] ^= 1,
         "header-number" => w.hdr.number ^= 1,
         "header-digest" => w.hdr.digest[27] ^= 1,
-        "bhash-zero" => w.bhash = [0; 4],
-        "bhash-garbage" => w.bhash = rd(rng),
+        "bhash-zero" => { w.bhash = [0; 4]; w.flag = Some(if w.out1 == 0 && w.out2 == 0 { 0 } else { 1 }); }
+        "bhash-garbage" => { w.bhash = rd(rng); w.flag = Some(1); }
         "flag0" => w.flag = Some(0),
         "flag1" => w.flag = Some(1),
         "depth17" => w.depth = 17,
@@ -457,8 +457,8 @@ fn mutate(rng: &mut StdRng, w: &mut Wit) -> String {
         "count-2^32-both" => { w.ntc[1] = (1 << 32) + 3; w.ltc[1] = (1 << 32) + 3; }
         "asset-2^32" => w.asset = 1 << 32,
         "number-2^32" => w.hdr.number = (1 << 32) + 1,
-        "outs-zero-keep-bhash" => { w.out1 = 0; w.out2 = 0; }
-        "outs-zero-and-bhash-zero" => { w.out1 = 0; w.out2 = 0; w.bhash = [0; 4]; }
+        "outs-zero-keep-bhash" => { w.out1 = 0; w.out2 = 0; w.flag = Some(if w.bhash == [0; 4] { 0 } else { 1 }); }
+        "outs-zero-and-bhash-zero" => { w.out1 = 0; w.out2 = 0; w.bhash = [0; 4]; w.flag = Some(0); }
         "sibling-changed" => { let l = rng.gen_range(0..MAXD); w.sibs[l][1][3] ^= 1; }
         "aid-foreign-both" => { let x = rd(rng); w.aid = x; w.lto = x; }
         "in+1-leafhash-stale" => w.input += 1,
@@ -485,6 +485,8 @@ fn mutate(rng: &mut StdRng, w: &mut Wit) -> String {
             w.depth = 17;
         }
         "pos4-inactive-only" => { if d < MAXD { w.pos[MAXD - 1] = 4 } }
+        "flag0+sibling-changed" => { w.flag = Some(0); let l = rng.gen_range(0..MAXD); w.sibs[l][0][1] ^= 1; }
+        "flag0+leaf-foreign-path" => { w.flag = Some(0); for l in 0..MAXD { w.sibs[l] = [rd(rng), rd(rng), rd(rng)]; } }
         "pos5-active+root-follows" => {
             if d > 0 {
                 let l = rng.gen_range(0..d);
